@@ -5,9 +5,10 @@
 (*   refines:  whatever the quoting layer (PatternScanFn) rejects, the grammar rejects;  *)
 (*   literals: appending a quoted literal to a pattern keeps it a pattern.               *)
 EXTENDS PatternGrammar, PatternScanFn, TLC
-CONSTANT MaxLen
+CONSTANTS MaxLen, Alphabet
 VARIABLES type, text
-Alphabet == {39, 34, 92, 37, 72, 70, 46, 121, 100, 99, 103, 120, 58, 90, 43, 68}     \* ' " \ % H F . y d c g x : Z + D
+Alpha16 == {39, 34, 92, 37, 72, 70, 46, 121, 100, 99, 103, 120, 58, 90, 43, 68}     \* ' " \ % H F . y d c g x : Z + D
+Alpha11 == {39, 92, 37, 72, 70, 46, 121, 99, 103, 90, 43}                              \* (for longer texts: TLC builds the set of texts at once)
 Texts == UNION {[1..n -> Alphabet] : n \in 2..MaxLen}
 Init == type \in GrammarTypes /\ text \in Texts
 Next == UNCHANGED <<type, text>>
